@@ -185,7 +185,91 @@ def run(index, tier="quick", seed=0) -> Result:
                     f"`{e.orders[0]}` with one in the order of `{e.orders[1]}`: each edge length meets the dihedral angle of another edge")
         else:
             res.ok("ST-5", k_, nontrivial=False)
+    # ST-6: range typing of the per-edge wedge angle.  The exterior dihedral angle of a convex polyhedron takes every value
+    # of (0, pi) (regular tetrahedron: 109.5 deg, cube: 90 deg, icosahedron: 41.8 deg), so the angle factor w of the per-edge
+    # term K * w must be an expression whose value range covers (0, pi): pi - arccos(.), arccos(.), arctan2(|.|, .) do,
+    # arcsin(.) / arctan(.) (range within [-pi/2, pi/2]) cannot - they are right for obtuse dihedral angles only.
+    for cname_, member_ in (("ConvexPolyhedron", "mean_curvature"), ("ConvexSpheropolyhedron", "volume"),
+                            ("ConvexSpheropolyhedron", "surface_area")):
+        v_, r_, f_ = gv(index, cname_, member_)
+        k_ = f"{cname_}.{member_}"
+        w = _wedge(v_.sym, r_["events"])
+        if w is None:
+            res.not_in_fragment.append(f"ST-6 {k_}: no per-edge angle factor recognised in {v_.sym}")
+            continue
+        for atom, form, (lo, hi) in w:
+            if lo <= 0 and hi >= 2:
+                res.ok("ST-6", k_, sample={"angle": atom, "wedge": form, "range_in_half_pi": [lo, hi]})
+            else:
+                res.bad("ST-6", k_ + ":wedge-range", f"{f_.file}:{f_.lineno}",
+                        f"{k_}: the per-edge wedge angle `{form}` with {atom.split('<')[0]} ranging over [{lo}, {hi}] * pi/2 only takes "
+                        f"values in [{_fmt(form, lo, hi)[0]}, {_fmt(form, lo, hi)[1]}] * pi/2, but exterior dihedral angles cover (0, pi): wrong for "
+                        f"every core with an acute (or, for the other half, obtuse) dihedral angle, e.g. the regular tetrahedron")
     return res
+
+
+def _fmt(form, lo, hi):
+    return (2 - hi, 2 - lo) if form.startswith("pi -") else (lo, hi)
+
+
+ANGLE_PREFIX = ("arccos<", "arcsin<", "arctan<", "arctan2<")
+
+
+def _angle_ranges(events):
+    """atom name -> (lo, hi) in units of pi/2, from the inverse-trigonometric calls met while evaluating the member and
+    from the results of helper methods that return such an angle (get_dihedral)."""
+    out = {}
+    for e in events:
+        if e.type == "arc" and e.f.get("result_sym") is not None:
+            a = next(iter(e.result_sym.atoms()))
+            out[a] = e.range
+        elif e.type == "leave" and e.f.get("value") is not None and e.value.sym is not None and e.value.sym.is_monomial():
+            rt = [t for t in e.value.tags if isinstance(t, tuple) and t and t[0] == "range"]
+            ats = e.value.sym.atoms()
+            if rt and len(ats) == 1 and e.value.sym == Poly.atom(next(iter(ats))):
+                out[next(iter(ats))] = (rt[0][1], rt[0][2])
+    return out
+
+
+def _wedge(sym, events):
+    """[(angle atom, 'pi - a' | 'a', effective range)] for every angle atom of the closed form; None if there is none or the
+    closed form is not linear in it."""
+    if sym is None:
+        return None
+    ranges = _angle_ranges(events)
+    out = []
+    pi = Poly.atom("pi")
+    for a in sorted(sym.atoms()):
+        if a not in ranges:
+            continue
+        p1 = sym.diff(a)
+        if a in p1.atoms() or p1.is_zero():
+            return None
+        p0 = sym - p1 * Poly.atom(a)
+        comp = (Poly.const(0) - p1) * pi          # the terms K * pi that turn -K * a into K * (pi - a)
+        lo, hi = ranges[a]
+        if all(p0.terms.get(m) == c for m, c in comp.terms.items()):
+            out.append((a, f"pi - {a.split('<')[0]}(...)", (2 - hi, 2 - lo)))
+        else:
+            neg = all(c < 0 for c in p1.terms.values())
+            out.append((a, f"{'-' if neg else ''}{a.split('<')[0]}(...)", (-hi, -lo) if neg else (lo, hi)))
+    return out or None
+
+
+def _is_angle_atom(a):
+    return a.startswith(ANGLE_PREFIX) or a.startswith("call<")
+
+
+def _differs_by_angle_spelling(l, r):
+    al = {a for a in l.atoms() if _is_angle_atom(a)}
+    ar = {a for a in r.atoms() if _is_angle_atom(a)}
+    pi = Poly.atom("pi")
+    for a in al - ar:
+        for b in ar - al:
+            for repl in (Poly.atom(b), pi - Poly.atom(b)):
+                if l.subs({a: repl}) == r:
+                    return True
+    return False
 
 
 def _ident(res, rule, name, lhs, rhs, fn, deriv=False):
@@ -195,5 +279,9 @@ def _ident(res, rule, name, lhs, rhs, fn, deriv=False):
     l = lhs.diff(R) if deriv else lhs
     if l == rhs:
         res.ok(rule, name, sample={"identity": name, "value": str(rhs)[:160]})
+    elif _differs_by_angle_spelling(l, rhs):
+        # the two sides use differently spelled angles (e.g. arccos(n1.n2) vs pi - get_dihedral): whether those are the same
+        # number is a value-level fact -> undecided (ST-6 still judges the range of each spelling)
+        res.not_in_fragment.append(f"{rule} {name}: sides agree up to the spelling of the per-edge angle")
     else:
         res.bad(rule, name, f"{fn.file}:{fn.lineno}", f"{name} fails: left side {l}, right side {rhs}")
